@@ -1035,7 +1035,8 @@ func (x *Exec) makeInterface(st *State, v V, it types.Type) V {
 	term := x.encode(st, v)
 	b := x.define("iface", "Int", "("+box+" "+term+")")
 	x.assume("true", and("(= ("+unbox+" "+b+") "+term+")", fmt.Sprintf("(= (itag %s) %d)", b, x.typeID(v.T)), "(> "+b+" 0)"))
-	return V{T: it, S: b}
+	dyn := v
+	return V{T: it, S: b, Dyn: &dyn}
 }
 
 func (x *Exec) typeAssert(fr *Frame, st *State, i *ssa.TypeAssert) V {
